@@ -968,7 +968,18 @@ impl State {
                     locals: Default::default(),
                 })?;
                 self.set_ip(x);
-                self.run()
+                // run the word itself, not the code compiled so far that waits behind it
+                let depth = self.return_stack.len();
+                self.clear_last_error();
+                self.run_failed = false;
+                while self.is_running() && self.return_stack.len() >= depth {
+                    self.fetch_and_run().map_err(|e| {
+                        self.set_runtime_err_location(&e);
+                        self.run_failed = true;
+                        e
+                    })?;
+                }
+                OK
             }
         }
     }
